@@ -2,11 +2,14 @@
     Proved here for ANY tables (no recovery): every expected list the parser reports has no
     duplicates and only names terminals below tn_names (= |__TERMINAL|), hence never the error
     pseudo-terminal whose column is tn_names; the list is in table order.
-    Not proved yet (partial): that every listed terminal is a viable continuation (needs the
-    viable-prefix invariant), and completeness for canonical LR(1).  The check decides both per run
+    Proved for validated, productive tables: every listed terminal is a viable continuation -- the
+    consumed prefix followed by any token of that terminal is a prefix of some sentence (the accepts
+    simulation mirrors real reductions that leave the consumed input unchanged and end in a state
+    that shifts the terminal; a shift is justified by an item, which is completed to a sentence).
+    Not proved (partial): completeness of the list for canonical LR(1); the check decides it per run
     with an independent Earley oracle. *)
 From Coq Require Import List ZArith Lia.
-From LV Require Import LR.Driver LR.Validator LR.ErrorPos.
+From LV Require Import LR.Driver LR.Validator LR.ErrorPos LR.Completeness LR.Main.
 Import ListNotations.
 
 Theorem C05_expected_nodup_no_error_terminal : forall A orc fuel w s,
@@ -38,3 +41,20 @@ Proof.
     + destruct (IH (S i) L H x Hx) as [Hr Hacc]. split; [lia|exact Hacc].
 Qed.
 Print Assumptions C05_expected_is_accepts_filter.
+
+(* the statement of C05: listed terminals are valid continuations of the consumed input *)
+Theorem C05_expected_terminals_are_viable_continuations : forall A C, valid A C = true -> uses_recovery A = false ->
+  productive A C = true ->
+  forall orc fuel w s, Forall (tok_in_range A) w ->
+  (forall k exp, drive A orc fuel (map IOk w) = (RErr (PUnrecTok k exp), s) ->
+     exists u v, w = u ++ k :: v /\ npulled s = S (length u) /\
+       forall x kx, In x exp -> tk_idx kx = Some x -> exists v', sentence A (u ++ [kx] ++ v')) /\
+  (forall loc exp, drive A orc fuel (map IOk w) = (RErr (PUnrecEof loc exp), s) ->
+     forall x kx, In x exp -> tk_idx kx = Some x -> exists v', sentence A (w ++ [kx] ++ v')).
+Proof.
+  intros A C Hv Hn Hp orc fuel w s Hw. split.
+  - intros k exp H. destruct (consumed_prefix_is_viable A C Hv Hn orc fuel w k exp s Hp Hw H) as (u & v & H1 & H2 & _ & H3).
+    exists u, v. repeat split; assumption.
+  - intros loc exp H. exact (expected_at_eof_are_viable A C Hv Hn orc fuel w loc exp s Hp Hw H).
+Qed.
+Print Assumptions C05_expected_terminals_are_viable_continuations.
